@@ -14,7 +14,11 @@
    non-member absent / first / last in the inner ring list, failing inner-ring or committee lookup,
    re-delivered notary request); the transactions reaching either fake node are counted: authority sends,
    own-wallet sends (notary deposit), exact repeats. TLC validates RecProp (authority sends only from members,
-   no repeats) and RecCode (counts = code-shaped prediction)."""
+   no repeats) and RecCode (counts = code-shaped prediction).
+3. Index-cache histories (spec/AlphabetHist.tla, exhaustive + TraceAlphabetHist): nodes whose innerRingIndexer has
+   a 1 h cache time-out; Boot / Chain(state) / Expire(=reset) / Deliver(event): a failed lookup followed by further
+   queries inside the cache window - at start-up (never refreshed) and after a reset, for a node that never was a
+   member and for one voted out meanwhile - must never be answered with index 0 or a stale membership."""
 import json, os
 import vkit
 import irproc_util as iu
@@ -22,16 +26,56 @@ import irproc_util as iu
 LEVEL = "model_checking"
 
 
+def hist(ck, binp, rp):
+    """Index-cache histories: failed lookup followed by queries inside the cache window (start-up, after reset,
+    node voted out meanwhile) and random Chain/Expire/Deliver sequences on nodes with a 1 h indexer time-out."""
+    scripts = os.path.join(ck.tmp, "c35_hist_scripts.ndjson")
+    if rp:
+        vkit.write_ndjson(scripts, [rp["script"]])
+    else:
+        ck.harness(binp, ["c35histgen", scripts])
+    beh = vkit.read_ndjson(scripts)
+    trace = os.path.join(ck.tmp, "c35_hist_trace.ndjson")
+    ck.harness(binp, ["c35hist", scripts, trace], timeout=2400)
+    ev = vkit.read_ndjson(trace)
+    v = ck.tlc_validate("TraceAlphabetHist", "TraceAlphabetHist.cfg", trace)
+    ck.add("traces_validated_against_impl", len(beh))
+    ck.setcov("cache_histories", len(beh))
+    ck.setcov("cache_history_events", len(ev))
+    ck.sample({"cache_history": beh[0], "trace_head": ev[:4]})
+    if not v.ok:
+        pos = iu.last_l(v) or 1
+        pos = min(pos, len(ev))
+        idx = -1
+        for e in ev[:pos]:
+            if e["ev"] == "Boot":
+                idx += 1
+        # the violated invariant is evaluated on the state AFTER the offending event: it is the previous one
+        off = ev[pos - 2] if v.name in ("HistProp", "NoRepeats") and pos >= 2 else ev[pos - 1]
+        ck.violation("index-cache history: authority transaction(s) sent although neither the correct indexer view nor the chain says member "
+                     "(%s %s) at event %d: %s" % (v.kind, v.name, pos, json.dumps(off)),
+                     {"script": beh[max(idx, 0)], "event": off, "tlc": v.trace_text[-1500:]})
+    elif iu.drifts(v):
+        pos = iu.drifts(v)[0]
+        raise vkit.Infra("model drift (not a verdict) in an index-cache history, event %d: %s" % (pos, json.dumps(ev[pos - 1])))
+
+
 def run(ck):
     ck.tlc_model("Alphabet", "Alphabet_asis.cfg", timeout=600, workers=4, heap="2g")
+    ck.tlc_model("AlphabetHist", "AlphabetHist.cfg", timeout=900, workers=4, heap="2g")
+    rp = json.load(open(ck.replay))["replay"] if ck.replay else None
     ck.setcov("exhaustive", True)
     ck.setcov("constants", "N=4 alphabet contracts, 26 events x 6x7x3x2 node states")
     binp = ck.gobuild("irproc")
+    if rp is None or "script" in rp:
+        hist(ck, binp, rp)
+    if rp is not None and "case" not in rp:
+        return
     recs_p = os.path.join(ck.tmp, "c35.ndjson")
     args = ["c35", recs_p]
     if ck.replay:
         cases = os.path.join(ck.tmp, "c35_cases.ndjson")
-        vkit.write_ndjson(cases, [json.load(open(ck.replay))["replay"]["case"]])
+        vkit.write_ndjson(cases, [rp["case"]])
         args.append(cases)
     ck.harness(binp, args, timeout=2400)
     recs = vkit.read_ndjson(recs_p)
@@ -39,7 +83,7 @@ def run(ck):
     ck.setcov("registered_handlers", meta["registered"])
     ck.setcov("extra_triggers", meta["extra_triggers"])
     ck.setcov("unmodelled", meta["unmodelled"] or [])
-    ck.setcov("traces_validated_against_impl", len(recs))
+    ck.add("traces_validated_against_impl", len(recs))
     ck.setcov("distinct_event_types", len({r["in"]["ev"] for r in recs}))
     ck.setcov("distinct_node_states", len({json.dumps(r["in"]["st"], sort_keys=True) for r in recs}))
     ck.setcov("records_with_authority_sends", sum(1 for r in recs if r["out"]["auth"] > 0))
